@@ -592,3 +592,51 @@ Example eager_scalar_instance :          (* eager X[i, 1:, j] with rank-0 tensor
   t1_free (map flat aidx) = true /\ good_form (full_form shape aidx) = true /\
   eager_nest shape aidx = np_nest shape aidx /\ option_map fst (eager_nest shape aidx) = Some [3].
 Proof. vm_compute. repeat split. Qed.
+
+(* ---- the general theorems for the converter (AdvConvProofs.v: the chain computes the per-axis view for every tuple) ---- *)
+Require Import OV.Index.AdvConvProofs.
+
+Theorem conv_adv_good_sound : conv_adv_good_full.
+Proof.
+  intros shape aidx n Hd Hlen Hh Hg H. apply (adv_sound_of_view_sound (run_conv true)); try assumption.
+  intros v Hv. apply conv_view_sound_all; try assumption. rewrite map_length. assumption.
+Qed.
+
+(* no spurious errors: on a good form where NumPy returns, the converter's chain returns the same *)
+Theorem conv_adv_good_complete : forall shape aidx n,
+  dims_ok shape -> hazard_free shape (map flat aidx) = true ->
+  conv_accepts (map flat aidx) = true -> conv_minus1_ok (map flat aidx) = true ->
+  good_form (full_form shape aidx) = true ->
+  np_nest shape aidx = Some n -> conv_nest shape aidx = Some n.
+Proof.
+  intros shape aidx n Hd Hh Ha Hm Hg H. unfold np_nest in H.
+  destruct (np_index shape (map flat aidx)) as [v|] eqn:E; [|discriminate].
+  pose proof (np_index_length _ _ _ E) as Hlen. rewrite map_length in Hlen.
+  unfold conv_nest. rewrite (conv_view_complete_all shape (map flat aidx) v Hd Hh Ha Hm E). cbn [option_map].
+  rewrite arrangement_agrees in H.
+  - exact H.
+  - rewrite form_items by (rewrite (np_index_length_eq _ _ _ E); assumption).
+    rewrite (np_index_length_eq _ _ _ E). exact Hg.
+Qed.
+
+(* on any form: what the converter returns is the outer arrangement of NumPy's per-axis view, and it returns whenever that
+   view exists (so on a bad form the converter is never rescued by an error: it returns the outer arrangement) *)
+Theorem conv_nest_is_outer_nest : forall shape aidx,
+  dims_ok shape -> (length aidx <= length shape)%nat -> hazard_free shape (map flat aidx) = true ->
+  conv_accepts (map flat aidx) = true -> conv_minus1_ok (map flat aidx) = true ->
+  conv_nest shape aidx = outer_nest shape aidx.
+Proof.
+  intros shape aidx Hd Hlen Hh Ha Hm. unfold conv_nest, outer_nest.
+  destruct (np_index shape (map flat aidx)) as [v|] eqn:E.
+  - rewrite (conv_view_complete_all _ _ _ Hd Hh Ha Hm E). reflexivity.
+  - destruct (run_conv true shape (map flat aidx)) as [v|] eqn:E'; [|reflexivity].
+    rewrite (conv_view_sound_all shape (map flat aidx) v) in E; try assumption; [discriminate|rewrite map_length; assumption].
+Qed.
+
+Example conv_good_complete_instance :     (* X[0, I, 1:] with a constant int beside a rank-2 tensor index, X of shape (2,4,3) *)
+  let shape := [2; 4; 3] in
+  let aidx := [AB (CInt 0); ATN [2; 2] [0; -1; 2; 1]; AB (CSlice (BConst 1) BNone BNone)] in
+  hazard_free shape (map flat aidx) = true /\ conv_accepts (map flat aidx) = true /\ conv_minus1_ok (map flat aidx) = true /\
+  good_form (full_form shape aidx) = true /\
+  option_map fst (np_nest shape aidx) = Some [2; 2; 2] /\ conv_nest shape aidx = np_nest shape aidx.
+Proof. vm_compute. repeat split. Qed.
